@@ -9,15 +9,15 @@ CHECKS = {
   text="Generated (point, resolution) pairs (about half adversarial: poles, the 62 dodecahedron frame points at 1e-12..1e-1 rad, antimeridian, wrapped longitudes, corner/edge huggers) are sent through lonlat_to_cell and judged by a point-in-polygon test written independently of the library on the cell's own boundary ring. Sampled, not exhaustive; tolerance 4.3e-5 cell widths.",
   note="Trusts cell_to_boundary at 64 segments per edge as the cell's boundary (its own consistency is C03/C04/C12) and the harness's closed-form authalic latitude.", ref="DESIGN.md §6 C01"),
  "C02": dict(
-  technique="coverage-directed boundary anchors; property-based testing: complete enumeration of all cells res<=5/7 plus Hypothesis structured ids and located cells; round-trip cell->centre->cell with an independent containment oracle",
+  technique="coverage-directed boundary anchors and branch-distance (comparison-operand) search for thin slabs; property-based testing: complete enumeration of all cells res<=5/7 plus Hypothesis structured ids and located cells; round-trip cell->centre->cell with an independent containment oracle",
   text="Every cell of res 0..5 (quick) / 0..7 (thorough, 327,672 cells) plus generated cells up to res 29 (structured S, poles, frame points, antimeridian): centre in range, strictly inside own ring, maps back to the same id. Exhaustive on the enumerated levels only.",
   note="Ring at 8/64 segments per edge stands for the true boundary.", ref="DESIGN.md §6 C02"),
  "C03": dict(
-  technique="along-edge beyond-edge probes, coverage-directed boundary anchors; property-based testing: complete per-level manifold certificate (directed-edge matching, Euler characteristic, area sum) for res<=5/7 plus Hypothesis-sampled edge-neighbour checks to res 29",
+  technique="along-edge beyond-edge probes, coverage-directed boundary anchors and branch-distance (comparison-operand) search for thin slabs; property-based testing: complete per-level manifold certificate (directed-edge matching, Euler characteristic, area sum) for res<=5/7 plus Hypothesis-sampled edge-neighbour checks to res 29",
   text="For each level up to 5 (quick) / 7 (thorough) all rings are collected and certified as a closed 2-manifold partition (each directed edge once, its reverse once, V-E+F=2, areas sum to 4pi). Beyond that, generated cells (poles, face edges/vertices, antimeridian, structured ids) have all five edges checked against the lonlat_to_cell-discovered neighbour, vertex for vertex at 4 segments. Corner sweep: points 0.1-0.2 % inside every vertex of every cell of res 8 (all 983,040 thorough; every 8th quick) must come back in a cell containing them.",
   note="Partition is certified only for res<=7; sampled beyond. Vertex coincidence within 1e-6 cell widths, edge points within 1e-4 + float floor.", ref="DESIGN.md §6 C03"),
  "C04": dict(
-  technique="cells straddling coverage-discovered branch boundaries of the projection code; property-based testing: enumeration of all cells res<=4/6 plus Hypothesis cells to res 29; independent spherical area (two formulas) with Richardson extrapolation over the segment count and closed-form authalic latitude",
+  technique="cells straddling coverage-discovered branch boundaries of the projection code and branch-distance (comparison-operand) search for thin slabs; property-based testing: enumeration of all cells res<=4/6 plus Hypothesis cells to res 29; independent spherical area (two formulas) with Richardson extrapolation over the segment count and closed-form authalic latitude",
   text="Each cell's area is measured from its boundary ring at 32/64 (then 64/128) segments with an area formula independent of the library and compared with 4pi/N(r) to 1e-6 (+ float floor of the returned degrees). A violation needs two agreeing estimates; otherwise the case is counted inconclusive.",
   note="Assumes the discretisation error of the ring is O(1/k^2) (Richardson); geodetic->authalic by the closed WGS84 form.", ref="DESIGN.md §6 C04"),
  "C05": dict(
@@ -29,7 +29,7 @@ CHECKS = {
   text="children/parent relations (no repeats, right resolution and count, parent(child)=c, composition, membership, contiguous ascending runs, ValueError on out-of-order requests) for every cell up to res 4 with every parent/child resolution up to 6/7, and for generated cells up to res 29 with jumps of up to 3 levels across the 12/5/4 aperture changes.",
   note="Reference id model as specification; S sampled.", ref="DESIGN.md §6 C06"),
  "C07": dict(
-  technique="property-based testing: Hypothesis descent paths and point/ancestor pairs, enumeration of all short paths under res<=2 cells; independent great-circle distance oracle",
+  technique="coverage-directed boundary anchors; property-based testing: Hypothesis descent paths and point/ancestor pairs, enumeration of all short paths and of all prefix+spine paths under res<=2/3 cells; independent great-circle distance oracle",
   text="Generated descent paths (12 levels, incl. extreme first/last/alternating paths) and (point, r, r') triples are judged against the property's constants 1.5 and 2.5 with an independent distance on the authalic sphere; exact nesting of faces and segments is enumerated. Measured worst drift 1.21 / 1.33.",
   note="Sampled paths; constants are the property's.", ref="DESIGN.md §6 C07"),
  "C08": dict(
@@ -45,19 +45,19 @@ CHECKS = {
   text="uncompact output is compared block by block (input order, multiplicity) with the reference descendants; length, resolution, parent mapping and argument immutability are asserted; inputs containing a finer cell at any position must raise.",
   note="Expansion bounded to 4^7 per case, plus a stage of 65,000-400,000-cell outputs.", ref="DESIGN.md §6 C10"),
  "C11": dict(
-  technique="coverage-directed boundary anchors; property-based testing: Hypothesis points (as C01) and cells (enumerated res 2..4/6, generated to res 29); independent great-circle distance oracle against the property's bounds",
+  technique="coverage-directed boundary anchors and branch-distance (comparison-operand) search for thin slabs; property-based testing: Hypothesis points (as C01) and cells (enumerated res 2..4/6, generated to res 29); independent great-circle distance oracle against the property's bounds",
   text="Point-to-cell-centre distance <= 1.0 cell widths for generated points incl. poles/frame points/res 22-29; corner distances and separations for all cells of the enumerated levels and generated cells elsewhere.",
   note="Distances on the authalic sphere from coordinate differences.", ref="DESIGN.md §6 C11"),
  "C12": dict(
-  technique="wide explicit segments values, coverage-directed boundary anchors; property-based testing: enumeration of all cells res<=4/6 x 26 option sets plus Hypothesis cells at the antimeridian/poles to res 29; planar simplicity/orientation oracle in a gnomonic plane, corner-invariance metamorphic relation over segments",
+  technique="wide explicit segments values, coverage-directed boundary anchors and branch-distance (comparison-operand) search for thin slabs; property-based testing: enumeration of all cells res<=4/6 x 26 option sets plus Hypothesis cells at the antimeridian/poles to res 29; planar simplicity/orientation oracle in a gnomonic plane, corner-invariance metamorphic relation over segments",
   text="Every option combination (closed_ring x segments incl. defaults, None, 'auto') is called for each cell; vertex count, closure, latitude range, simplicity, orientation, corner invariance, option immutability and the longitude-continuity clauses are asserted.",
   note="Simplicity judged in the gnomonic plane about the cell centre.", ref="DESIGN.md §6 C12"),
  "C13": dict(
-  technique="coverage-directed boundary anchors, recycled argument buffers; property-based testing: Hypothesis unit vectors and face-plane points concentrated at seams, edges, vertices and centres down to 1e-12 rad; round-trip oracle through the nearest and the adjacent face",
+  technique="coverage-directed boundary anchors and branch-distance (comparison-operand) search for thin slabs, recycled argument buffers; property-based testing: Hypothesis unit vectors and face-plane points concentrated at seams, edges, vertices and centres down to 1e-12 rad; round-trip oracle through the nearest and the adjacent face",
   text="sphere->plane->sphere through the nearest face and through the face across the nearest edge, and plane->sphere->plane inside pentagon U mirror triangle, must return within 1e-11. Measured 3e-14.",
   note="Inputs handed to the library as (theta, phi) computed with atan2; sampled.", ref="DESIGN.md §6 C13"),
  "C14": dict(
-  technique="polygons with a vertex on coverage-discovered branch boundaries; property-based testing: Hypothesis polygons in the face plane (classes across seams/face edge/mirror triangle/centre, sizes 1e-4..0.5); independent spherical area of the unprojected, seam-split, densified boundary with Richardson extrapolation",
+  technique="polygons with a vertex on coverage-discovered branch boundaries and branch-distance (comparison-operand) search for thin slabs; property-based testing: Hypothesis polygons in the face plane (classes across seams/face edge/mirror triangle/centre, sizes 1e-4..0.5); independent spherical area of the unprojected, seam-split, densified boundary with Richardson extrapolation",
   text="Planar area times one global constant must equal the spherical area of the image to 1e-6 for generated triangles, quadrilaterals and pentagons on all 12 faces; a violation needs two agreeing estimates, or raw areas at 64/128/256 points per piece that fail to decay like 1/n^2.",
   note="Polygon edges are split at the published seam rays and edge line before densifying (the map is only piecewise smooth).", ref="DESIGN.md §6 C14"),
  "C15": dict(
